@@ -54,6 +54,34 @@ var nativeAct = &core.FuncAction{F: func(ctx context.Context, bs match.Bindings,
 	return core.NewExecution(bs), nil
 }}
 
+// c20Sources: action and guard sources that are not strings - an interpreter is free to take structured
+// source (the noop interpreter takes anything), and a document decoded by a YAML library gives maps with
+// interface{} keys.  Kinds "src:<i>".
+var c20Sources = []interface{}{
+	map[interface{}]interface{}{"op": "emit", "args": []interface{}{1, map[interface{}]interface{}{2: "x"}}},
+	map[string]interface{}{"op": "emit", "to": []interface{}{"<a>", "b&c"}},
+	[]interface{}{"first", map[interface{}]interface{}{true: nil}},
+	42.0,
+	nil,
+	true,
+	map[string]interface{}{"f": func() {}},
+	[]byte("bytes \"quoted\" <b>"),
+	struct{ A int }{7},
+	"if (a && b < c || d > e) { return \"<x> &amp; &\"; }\n// second line & more",
+}
+
+func c20Source(kind string) (interface{}, bool) {
+	if !strings.HasPrefix(kind, "src:") {
+		return nil, false
+	}
+	var i int
+	fmt.Sscanf(kind, "src:%d", &i)
+	if i < 0 || i >= len(c20Sources) {
+		return nil, false
+	}
+	return c20Sources[i], true
+}
+
 func c20Build(cs c20Case) (*core.Spec, error) {
 	// every generated spec carries the same Id and Name: nothing may be remembered under them
 	spec := &core.Spec{Id: "the-only-id", Name: "g", Nodes: map[string]*core.Node{}}
@@ -64,6 +92,10 @@ func c20Build(cs c20Case) (*core.Spec, error) {
 			n.Action = nativeAct
 		case "ecmascript", "goja":
 			n.ActionSource = &core.ActionSource{Interpreter: gn.Action, Source: "return _.bindings;"}
+		default:
+			if src, ok := c20Source(gn.Action); ok {
+				n.ActionSource = &core.ActionSource{Interpreter: "noop", Source: src}
+			}
 		}
 		if !gn.NoBr {
 			n.Branches = &core.Branches{Type: gn.Type}
@@ -87,6 +119,10 @@ func c20Build(cs c20Case) (*core.Spec, error) {
 					b.Guard = nativeAct
 				case "ecmascript", "goja":
 					b.GuardSource = &core.ActionSource{Interpreter: gb.Guard, Source: "return _.bindings;"}
+				default:
+					if src, ok := c20Source(gb.Guard); ok {
+						b.GuardSource = &core.ActionSource{Interpreter: "noop", Source: src}
+					}
 				}
 				n.Branches.Branches = append(n.Branches.Branches, b)
 			}
@@ -94,7 +130,7 @@ func c20Build(cs c20Case) (*core.Spec, error) {
 		spec.Nodes[cs.name(name)] = n
 	}
 	np := noop.NewInterpreter()
-	err := spec.Compile(context.Background(), core.InterpretersMap{"ecmascript": np, "goja": np}, true)
+	err := spec.Compile(context.Background(), core.InterpretersMap{"ecmascript": np, "goja": np, "noop": np}, true)
 	return spec, err
 }
 
@@ -338,7 +374,7 @@ func C20(c *vh.Ctx) {
 		}
 		return
 	}
-	c.Rule("every spec graph over node names {start, a, b}: (i) two nodes, each with action {none, native, ecmascript source, goja source}, branching type {message (no action), bindings}, and a branch list of 0-2 branches over target {start, a, b, missing, @v, \"\"} x guard {none, ecmascript source} (plus native / goja guards) x pattern {none, map}; (ii) three nodes with 0-1 branches each; (iii) a fixed three-node graph whose two free node names range over a list of 30 names (dot keywords, names with spaces, colons, quotes, angle brackets, ampersands, brackets, comment openers, backslashes, format verbs) and whose patterns range over 9 JSON contents (angle brackets, ampersands, quotes, markup, a bare string, arrays, one long enough to be indented); branch lists also as empty-but-not-nil lists; (iv) three-node graphs without any node called start, over names that sort before and after \"start\"; compiled; oracle: Analyze's sets and counts recomputed from the graph, Dot output parsed with the grammar of the dot language (quoted and HTML-like strings, keywords, ports) and matched to the spec graph under a searched correspondence of names (each spec node exactly one node statement whose well-formed label shows its name, extra nodes only as placeholders for branch targets, edge multiset = image of the branch multiset); Mermaid output split into statements and read back (node texts with entities decoded = names, edges through node ids = branches), the HTML rendering (RenderSpecHTML; names without markup characters) has one row per node, one numbered row per branch and one link per branch with a target; no panic, no error. non-trivial = more than one node.")
+	c.Rule("every spec graph over node names {start, a, b}: (i) two nodes, each with action {none, native, ecmascript source, goja source}, branching type {message (no action), bindings}, and a branch list of 0-2 branches over target {start, a, b, missing, @v, \"\"} x guard {none, ecmascript source} (plus native / goja guards) x pattern {none, map}; (ii) three nodes with 0-1 branches each; (iii) a fixed three-node graph whose two free node names range over a list of 30 names (dot keywords, names with spaces, colons, quotes, angle brackets, ampersands, brackets, comment openers, backslashes, format verbs) and whose patterns range over 9 JSON contents (angle brackets, ampersands, quotes, markup, a bare string, arrays, one long enough to be indented); branch lists also as empty-but-not-nil lists; (v) a three-node graph whose middle node has an action source, and whose first branch has a guard source, that is not a string (maps with interface{} keys as YAML libraries produce them, arrays, numbers, null, booleans, values that cannot be serialised), for an interpreter that takes structured source; (iv) three-node graphs without any node called start, over names that sort before and after \"start\"; compiled; oracle: Analyze's sets and counts recomputed from the graph, Dot output parsed with the grammar of the dot language (quoted and HTML-like strings, keywords, ports) and matched to the spec graph under a searched correspondence of names (each spec node exactly one node statement whose well-formed label shows its name, extra nodes only as placeholders for branch targets, edge multiset = image of the branch multiset); Mermaid output split into statements and read back (node texts with entities decoded = names, edges through node ids = branches), the HTML rendering (RenderSpecHTML; names without markup characters) has one row per node, one numbered row per branch and one link per branch with a target; no panic, no error. non-trivial = more than one node.")
 	targets := []string{"start", "a", "b", "missing", "@v", ""}
 	var kinds []gBranch
 	for _, t := range targets {
@@ -424,6 +460,25 @@ func C20(c *vh.Ctx) {
 		}
 	}
 	c20NoStart(c, one, &idx)
+	// (v) sources that are not strings, as action of the middle node and/or as the guard of its first branch
+	for i := range c20Sources {
+		for j := -1; j < len(c20Sources); j++ {
+			for _, tail := range []string{"b", "missing", "start"} {
+				idx++
+				if !c.Mine(idx) {
+					continue
+				}
+				g := ""
+				if j >= 0 {
+					g = fmt.Sprintf("src:%d", j)
+				}
+				one(c20Case{Nodes: map[string]gNode{
+					"start": {Type: "message", Branches: []gBranch{{Target: "a", Pattern: true}, {Target: "b"}}},
+					"a":     {Action: fmt.Sprintf("src:%d", i), Type: "bindings", Branches: []gBranch{{Target: tail, Guard: g}, {Target: "start", Pattern: true}}},
+					"b":     {NoBr: true}}})
+			}
+		}
+	}
 	// (iii) node names and patterns of any content: a three-node graph start -> X -> Y (+ a branch to a
 	// missing target and one back to start), X and Y over the name list, the patterns over the pattern list
 	for i, x := range c20Names {
